@@ -685,18 +685,24 @@ func (c *Client) headers(ctx context.Context, url string, start, limit uint64) (
 }
 
 type receiptResult struct {
-	BlockHash         eth.Bytes   `json:"blockHash"`
-	BlockNum          eth.Uint64  `json:"blockNumber"`
-	TxHash            eth.Bytes   `json:"transactionHash"`
-	TxIdx             eth.Uint64  `json:"transactionIndex"`
-	TxType            eth.Byte    `json:"type"`
-	TxFrom            eth.Bytes   `json:"from"`
-	TxTo              eth.Bytes   `json:"to"`
-	Status            eth.Byte    `json:"status"`
-	GasUsed           eth.Uint64  `json:"gasUsed"`
-	EffectiveGasPrice uint256.Int `json:"effectiveGasPrice"`
-	Logs              eth.Logs    `json:"logs"`
-	ContractAddress   eth.Bytes   `json:"contractAddress"`
+	BlockHash         eth.Bytes    `json:"blockHash"`
+	BlockNum          eth.Uint64   `json:"blockNumber"`
+	TxHash            eth.Bytes    `json:"transactionHash"`
+	TxIdx             eth.Uint64   `json:"transactionIndex"`
+	TxType            eth.Byte     `json:"type"`
+	TxFrom            eth.Bytes    `json:"from"`
+	TxTo              eth.Bytes    `json:"to"`
+	Status            eth.Byte     `json:"status"`
+	GasUsed           eth.Uint64   `json:"gasUsed"`
+	EffectiveGasPrice uint256.Int  `json:"effectiveGasPrice"`
+	Logs              []receiptLog `json:"logs"`
+	ContractAddress   eth.Bytes    `json:"contractAddress"`
+}
+
+// a log inside a receipt repeats the block it belongs to
+type receiptLog struct {
+	eth.Log
+	BlockNum eth.Uint64 `json:"blockNumber"`
 }
 
 type receiptResp struct {
@@ -773,7 +779,13 @@ func (c *Client) receipts(ctx context.Context, url string, bm blockmap, start, l
 			tx.EffectiveGasPrice = resps[i].Result[j].EffectiveGasPrice
 			tx.Logs = make([]eth.Log, len(resps[i].Result[j].Logs))
 			tx.ContractAddress.Write(resps[i].Result[j].ContractAddress)
-			copy(tx.Logs, resps[i].Result[j].Logs)
+			for k := range resps[i].Result[j].Logs {
+				if uint64(resps[i].Result[j].Logs[k].BlockNum) != blockNum {
+					const tag = "eth_getBlockReceipts log of another block in a receipt. num=%d log=%d"
+					return fmt.Errorf(tag, blockNum, resps[i].Result[j].Logs[k].BlockNum)
+				}
+				tx.Logs[k] = resps[i].Result[j].Logs[k].Log
+			}
 		}
 	}
 	return nil
